@@ -279,6 +279,46 @@ theorem C08_receive_count_mismatch (filt : List ℝ → List ℝ) (A : Antenna) 
   · unfold Antenna.receive; simp [h]
   · rfl
 
+/-- the arrival angles of a zero direction vector (which `normalize` leaves alone) are `(0, 0)`: the
+`r == 0` return of `_convert_to_antenna_coordinates`; so the dipole's directional gain is `sin 0 = 0`
+and the hypothesis `d.norm ≠ 0` of `C08_dipole_directional` excludes nothing unexplained -/
+theorem C08_zero_direction (A : Antenna) (d : V3) (hd : d.norm = 0) :
+    arrivalAngles A d = (0, 0) ∧ dipoleDirectional (arrivalAngles A d).1 (arrivalAngles A d).2 = 0 := by
+  have hz : isZero d.norm := by rw [isZero_iff]; exact hd
+  have hd0 : d.x * d.x + d.y * d.y + d.z * d.z = 0 := by
+    have := hd; rw [V3.norm_eq, Real.sqrt_eq_zero d.dot_self_nonneg] at this
+    simpa [V3.dot] using this
+  have hx : d.x = 0 := by nlinarith [mul_self_nonneg d.x, mul_self_nonneg d.y, mul_self_nonneg d.z]
+  have hy : d.y = 0 := by nlinarith [mul_self_nonneg d.x, mul_self_nonneg d.y, mul_self_nonneg d.z]
+  have hzz : d.z = 0 := by nlinarith [mul_self_nonneg d.x, mul_self_nonneg d.y, mul_self_nonneg d.z]
+  have hn : d.normalize = d := by unfold V3.normalize; simp [hz]
+  have h0 : A.frame.mulVec (V3.smul (-1) d) = ⟨0, 0, 0⟩ := by
+    ext <;> simp [Antenna.frame, Mat3.mulVec, V3.dot, V3.smul, hx, hy, hzz]
+  have hang : arrivalAngles A d = (0, 0) := by
+    dsimp only [arrivalAngles, toAntennaCoords]
+    rw [hn, V3.sub_sub_self, h0]
+    have : isZero (0 : ℝ) := by rw [isZero_iff]
+    simp [sphericalOf, this]
+  exact ⟨hang, by rw [hang]; simp [dipoleDirectional]⟩
+
+/-- **known finding K21** (negation of the response-factor clause for complex gains): with the gain
+product `g = 0.6 + 0.8i` and the identity filter, a plain `Signal` with the single sample 1 yields the
+prescribed complex product `(0.6, 0.8)`, while a function-backed signal with the same sample yields
+`0.6` only — the imaginary part `0.8 ≠ 0` of filtered × gain is lost.  In general (second part) the
+function-backed route returns exactly the real parts of what the sampled route returns whenever the
+filter is the identity. -/
+theorem C08_complex_gain_function_backed_drops_imaginary :
+    scaleSampled [1] ((0.6 : ℝ), (0.8 : ℝ)) = [((0.6 : ℝ), (0.8 : ℝ))] ∧
+    scaleFunctionBacked id [1] ((0.6 : ℝ), (0.8 : ℝ)) = [(0.6 : ℝ)] ∧
+    (∀ (vals : List ℝ) (g : ℝ × ℝ),
+      scaleFunctionBacked id vals g = (scaleSampled vals g).map (fun c => c.1)) ∧
+    (∀ (vals : List ℝ) (g : ℝ × ℝ), g.2 ≠ 0 → (∃ v ∈ vals, v ≠ 0) →
+      ∃ c ∈ scaleSampled vals g, c.2 ≠ 0) := by
+  refine ⟨by simp [scaleSampled], by simp [scaleFunctionBacked], fun _ _ => rfl, ?_⟩
+  rintro vals g hg ⟨v, hv, hv0⟩
+  exact ⟨(v * g.1, v * g.2), by simp only [scaleSampled, List.mem_map]; exact ⟨v, hv, rfl⟩,
+    mul_ne_zero hv0 hg⟩
+
 /-! ## non-vacuity -/
 
 /-- a concrete rotation that is not a coordinate permutation: the rational rotation with rows
